@@ -190,9 +190,19 @@ class C02(Prop):
                     if not isinstance(rep, list) or len(rep) != b['nreq'] + b['nbad']:
                         return 'batch response does not hold one entry per request plus one error entry per invalid member'
                     entries = rep[b['nbad']:]
+                    size = 0
                     for e, m in zip(entries, b['sent']):
                         if e.get('id') != m['id'] or type(e.get('id')) is not type(m['id']):
                             return 'batch response entry under the wrong id'
+                        # size accounting: an entry that takes the response over the maximum is replaced
+                        size += response_len(case['proto'], m) + 2
+                        replaced = isinstance(e.get('error'), dict) and e['error'].get('code') == -32600 \
+                            and not (m['res'][0] == 'err' and m['res'][1] == -32600)
+                        if mx and size > mx and not replaced:
+                            return ('a batch response grew over the maximum response size without the entry that did so '
+                                    'being replaced by an error entry')
+                        if not (mx and size > mx) and not same_outcome(e, m['res']):
+                            return 'batch response entry does not carry the result supplied'
         for b in batches.values():
             if b['left'] != 0:
                 return None
